@@ -79,9 +79,10 @@ def twin_read(specs, node_id, q, twice=False):
         return tree, W
 
     before = seams.globals_fingerprint()
+    hidden_before = seams.hidden_state_fingerprint()
     tree, _ = once()
     after = seams.globals_fingerprint()
-    info = {"globals_changed": seams.diff_fingerprints(before, after)}
+    info = {"globals_changed": seams.diff_fingerprints(before, after), "hidden_state_touched": seams.hidden_state_fingerprint() != hidden_before}
     if twice:
         tree2, _ = once()
         info["repeat_equal"] = compare.digest(tree2) == compare.digest(tree)
@@ -216,7 +217,7 @@ class ForkReference:
             try:
                 np.random.seed(20241113)
                 tree, info = twin_read(specs, node_id, q, twice)
-                tainted = bool(info.get("globals_changed"))
+                tainted = bool(info.get("globals_changed")) or bool(info.get("hidden_state_touched"))
                 out = ("ok", tree, info)
             except BaseException:  # noqa: BLE001
                 out = ("error", traceback.format_exc())
